@@ -237,6 +237,8 @@ where
     async fn try_run_old_blob_indexes_dump_task(&mut self) -> bool {
         if self.index_dump_task.as_ref().map_or(false, |task| !task.is_finished()) {
             // Dump task is in progress. Avoid starting second one
+            #[cfg(pearl_verif)]
+            crate::verif::on_dump_refused();
             return false;
         }
 
